@@ -282,8 +282,11 @@ def _uninstall():
 # the class attributes of the library that hold plain data (numbers, strings, None, tuples, dict / list / set) - is
 # therefore saved and restored with the process, like its module table.
 # ---------------------------------------------------------------------------------------------
+import collections as _collections
+import copy as _copy
+
 _PLAIN = (int, float, str, bytes, bool, type(None), tuple, frozenset)
-_BOXES = (dict, list, set)
+_BOXES = (dict, list, set, _collections.deque)          # and their subclasses (OrderedDict, defaultdict, ...)
 _OWNERS = [None]
 
 
@@ -297,6 +300,9 @@ def _lib_owners():
                 for v in list(vars(mod).values()):
                     if isinstance(v, type) and getattr(v, '__module__', None) == name:
                         owners.append(v)
+                    elif (not isinstance(v, (type, types.ModuleType, types.FunctionType)) and str(getattr(type(v), '__module__', '')).startswith('bisturi')
+                          and hasattr(v, '__dict__')):
+                        owners.append(v)        # a module-level instance of a library class (a registry, a memo): its attributes too
         _OWNERS[0] = owners
     return _OWNERS[0][1:]
 
@@ -307,10 +313,9 @@ def lib_snapshot():
         for k, v in list(vars(o).items()):
             if k.startswith('__') and k.endswith('__'):
                 continue
-            t = type(v)
-            if t in _BOXES:
-                snap[(id(o), k)] = (o, k, v, t(v))
-            elif t in _PLAIN:
+            if isinstance(v, _BOXES):
+                snap[(id(o), k)] = (o, k, v, _copy.copy(v))
+            elif type(v) in _PLAIN:
                 snap[(id(o), k)] = (o, k, v, None)
     return snap
 
@@ -320,8 +325,7 @@ def lib_restore(snap):
         for k, v in list(vars(o).items()):
             if k.startswith('__') and k.endswith('__'):
                 continue
-            t = type(v)
-            if t not in _BOXES and t not in _PLAIN:
+            if not isinstance(v, _BOXES) and type(v) not in _PLAIN:
                 continue
             if (id(o), k) not in snap:
                 try:
@@ -330,8 +334,11 @@ def lib_restore(snap):
                     pass
     for (_, k), (o, k2, v, content) in snap.items():
         if content is not None:
-            if type(v) is list:
+            if isinstance(v, list):
                 v[:] = content
+            elif isinstance(v, _collections.deque):
+                v.clear()
+                v.extend(content)
             else:
                 v.clear()
                 v.update(content)
